@@ -21,13 +21,9 @@ func coinbaseWithScript(script []byte) *btcutil.Tx {
 }
 
 func runLocks(c *vrun.Ctx) error {
-	states, err := model(c, "Locks", 2, []string{"Group", "Pick"})
-	if err != nil {
-		return err
-	}
 	st := newStats()
-	c.Parallel(len(states), func(i int) {
-		s := states[i]
+	bt := &batcher{c: c, size: 4000}
+	bt.work = func(i int, s tla.State) {
 		cs, ex := s["case"], s["expect"]
 		switch cs.F("kind").Str() {
 		case "final":
@@ -63,7 +59,11 @@ func runLocks(c *vrun.Ctx) error {
 			st.add("cbheight")
 			checkCbHeight(c, bytesOf(cs.F("s")), ex)
 		}
-	})
+	}
+	if err := model(c, "Locks", 2, []string{"Group", "Pick"}, func(s tla.State) error { bt.add(s); return nil }); err != nil {
+		return err
+	}
+	bt.flush()
 	c.Logf("Locks cases replayed: %s", st)
 	c.SetExtra("locks_cases", st.export())
 	return nil
